@@ -173,10 +173,7 @@ pub fn c15_case(rep: &mut Report, seed: u64, idx: u64, verbose: bool) {
             }
         };
         match &f.decoded {
-            Some(RTel::Token { sa, da }) if *sa == ts && {
-                let pr = rig.fdl().verif_probe();
-                pr.state == "CheckTokenPass" && pr.sub >= 2
-            } => {
+            Some(RTel::Token { sa, da }) if *sa == ts && *da != ts && rig.pass_retries.iter().any(|t| *t >= f.start - 1 && *t <= f.end + cfg.period) => {
                 // The station repeats a token pass although the environment has taken the token and
                 // moved it on: it did not hear that (a late reply of a hostile peer sat in front of
                 // the environment's telegram and made both undecodable).  From here on station and
@@ -440,7 +437,7 @@ pub fn c15(ctx: &mut Ctx) {
         }
         return;
     }
-    let n = ctx.n(6000, 600_000, 2);
+    let n = ctx.n(24_000, 600_000, 2);
     for k in 0..n {
         let i = ctx.shard + k * ctx.nshards;
         ctx.rep.cur_case = format!("c15 {} seed {}", i, seed);
